@@ -58,7 +58,7 @@ func judgeFinal(c *Case, ex *Expectation, root string, before map[string]Node, c
 	allowed := map[string]bool{} // paths the run may create or replace
 	if strings.HasSuffix(c.Inv.Output, "/") || ex.DirDst {
 		// the output directory itself is created even when nothing is selected
-		for p := filepath.Clean(c.Inv.Output); p != "." && p != "/"; p = filepath.Dir(p) {
+		for p := filepath.Clean(c.Inv.relOutput()); p != "." && p != "/"; p = filepath.Dir(p) {
 			allowed[p] = true
 		}
 	}
